@@ -206,18 +206,26 @@ func (ex *Exec) callBuiltin(st *State, c *ssa.Call, b *ssa.Builtin, a []SV) []*S
 		}
 		return ex.callAppend(st, c, a)
 	case "copy":
-		// copy(dst, src []byte): only whole-buffer byte copies are modelled
+		// copy(dst, src): the first min(len dst, len src) bytes of dst become the
+		// (old) first bytes of src (memmove semantics); the rest of dst's block is unchanged
 		dst, src := a[0], a[1]
-		if dst.K != KSlice || dst.Elem != "byte" || src.K != KSlice {
+		if dst.K != KSlice || dst.Elem != "byte" {
 			panic(unsupported("copy on non-byte slices"))
 		}
-		n := ex.fresh("copied", SInt)
-		st.assume(Eq(n, Ite(Lt(dst.Len, src.Len), dst.Len, src.Len)))
-		nm := ex.fresh("bytes", SBytes)
-		mem := Select(st.heap["BMem"], dst.Ref)
-		st.assume(Eq(App(SInt, "f_blen", nm), App(SInt, "f_blen", mem)))
-		st.assume(Implies(And(Eq(dst.Off, IntLit(0)), Eq(dst.Len, App(SInt, "f_blen", mem)), Eq(src.Len, dst.Len)), Eq(nm, ex.sliceBytes(st, src))))
-		st.heap["BMem"] = ex.define(st, "BMem", Store(st.heap["BMem"], dst.Ref, nm))
+		var srcBytes, srcLen Term
+		switch {
+		case src.K == KSlice && src.Elem == "byte":
+			srcBytes, srcLen = ex.sliceBytes(st, src), src.Len
+		case src.K == KScalar && src.T.Sort == SStr:
+			srcBytes = App(SBytes, "f_bytesOf", src.T)
+			srcLen = App(SInt, "f_blen", srcBytes)
+		default:
+			panic(unsupported("copy from an unsupported source"))
+		}
+		n := ex.define(st, "copied", Ite(Lt(dst.Len, srcLen), dst.Len, srcLen))
+		st.assume(Ge(n, IntLit(0)))
+		content := ex.define(st, "copybytes", App(SBytes, "f_bsub", srcBytes, IntLit(0), n))
+		ex.writeBytes(st, SV{K: KSlice, Elem: "byte", Ref: dst.Ref, Off: dst.Off, Len: n, Cap: dst.Cap}, content, c)
 		st.vals[c] = Scalar(n)
 	default:
 		panic(unsupported("builtin " + b.Name()))
